@@ -69,7 +69,7 @@ def run(run, replay=None):
         base = rdriver.read_bytes(base_data)
         if base[1] == 'done':
             si = rng.randrange(len(ids))
-            ins = [(si, 0, 'k%03d' % j, rng.choice(['v', '7', 'a/b'])) for j in range(450)]       # one header line of ~4.5 KiB
+            ins = [(si, 0, 'k%03d' % j, rng.choice(['v', '7', 'a/b'])) for j in range(900)]       # one header line of ~8 KiB
             data, _x = fgen.build_file(ids, random.Random(seed), unknown=ins)
             cases.append(rdriver.case(n, 'unknown', data, cat, base=base[0], baseend=base[1],
                                       ins=[{'sec': s_ + 1, 'k': list(k.encode()), 'v': list(v.encode())} for s_, _p, k, v in ins], ship_file=True))
